@@ -1,6 +1,65 @@
-/-! `pmodel raw`: line-protocol driver (stub — replaced by the owner of this model). -/
+import PhreeqcVerif.Model.Util
+import PhreeqcVerif.Model.RawTables
+import PhreeqcVerif.Gen.RawTables
+/-! `pmodel raw`: the RAW table model on a list of queries (one answer line per query).
+  find <table> <hexitem> <0|1>   → `I <index|-1>`            find_option(item, vopts, exact)
+  line <table> <hextoken>        → `I <index|-1>`            what get_option selects for the first token of a line
+  route <table> <hexkey>         → `R <kind> <sinks,|-> <continues01>`   case a written key is dispatched to
+  keys <table>                   → `K key:status …`  status ∈ restored | dropped | cross | unknown | const
+  failing                        → `F table:obligation,… …`
+  tables                         → `T name …`
+-/
 namespace Driver.Raw
+open PhreeqcVerif PhreeqcVerif.Util PhreeqcVerif.Raw PhreeqcVerif.Gen.Raw
 
-def run : IO Unit := IO.eprintln "pmodel raw: not implemented"
+def showIdx : Option Nat → String
+  | some i => s!"I {i}"
+  | none => "I -1"
+
+def kindStr : CKind → String
+  | .value => "value" | .namedouble => "namedouble" | .nested => "nested" | .ignore => "ignore" | .error => "error"
+
+def statusOf (t : ClassTab) (k : WKey) : String :=
+  if isConst k then "const" else
+  match resolve t k with
+  | none => "unknown"
+  | some c =>
+    if c.kind == .error then "unknown"
+    else if !subset c.sinks k.members then "cross"
+    else if subset k.members c.sinks then "restored" else "dropped"
+
+def answer (line : String) : String :=
+  match words line with
+  | ["find", tn, hk, ex] =>
+    match lookupTab allTables tn, unhexStr hk with
+    | some t, some k => showIdx (if ex == "1" then findOptionExact k t.vopts else findOption k t.vopts)
+    | _, _ => "bad-op"
+  | ["line", tn, hk] =>
+    match lookupTab allTables tn, unhexStr hk with
+    | some t, some k => showIdx (lineOption k t.vopts)
+    | _, _ => "bad-op"
+  | ["route", tn, hk] =>
+    match lookupTab allTables tn, unhexStr hk with
+    | some t, some k =>
+      match (findOption k t.vopts).bind (caseOf t) with
+      | some c => s!"R {kindStr c.kind} {if c.sinks.isEmpty then "-" else ",".intercalate c.sinks} {if c.continues then 1 else 0}"
+      | none => "R none - 0"
+    | _, _ => "bad-op"
+  | ["keys", tn] =>
+    match lookupTab allTables tn with
+    | some t => "K " ++ " ".intercalate (t.written.map fun k => s!"{if k.key.isEmpty then "_" else k.key}:{statusOf t k}")
+    | none => "bad-op"
+  | ["failing"] =>
+    "F " ++ " ".intercalate ((allTables.filter fun t => !(failing allTables t).isEmpty).map fun t =>
+      s!"{t.name}:{",".intercalate (failing allTables t)}")
+  | ["tables"] => "T " ++ " ".intercalate (allTables.map (·.name))
+  | _ => "bad-op"
+
+def run : IO Unit := do
+  let stdin ← IO.getStdin
+  let lines ← readLines stdin
+  for l in lines do
+    if l.trimAscii.toString.isEmpty then continue
+    IO.println (answer l)
 
 end Driver.Raw
